@@ -180,7 +180,7 @@ func (q qnode) Size() (int64, error) {
 	}
 	return q.sz, nil
 }
-func (q qnode) Link() ipld.Link      { return cidlink.Link{Cid: q.c} }
+func (q qnode) Link() ipld.Link { return cidlink.Link{Cid: q.c} }
 
 // buildDir runs the builder named by the case.
 func buildDir(d dirCase, st *store.Store, entries []dagpb.PBLink, model map[string]cid.Cid, sizes map[string]uint64) (cid.Cid, uint64, error) {
